@@ -120,6 +120,19 @@ func c03Gen(rng *verifsim.RNG, idx int, tier string) *Plan {
 		}
 		p.Actions = append(p.Actions, rsAction(4300*nsMs+jitter(rng), hostAddr(2)))
 	}
+	if rng.Bool(0.1) {
+		// a system state in which the :: wildcard has nothing usable to offer
+		// (DAD still running, only deprecated/temporary addresses): the daemon may
+		// refuse to advertise, but must not put an unusable value on the wire
+		p.Class += "+no-eligible-address"
+		s.RDNSS = append(s.RDNSS, RDNSSSpec{Servers: []string{"::"}})
+		iw.Addrs = []AddrW{{CIDR: iw.LL + "/64", Flags: 0x40}, {CIDR: "2001:db8:c::1/64", Flags: 0x40}, {CIDR: "2001:db8:d::1/64", Flags: 0x20}}
+		if rng.Bool(0.5) {
+			// ... at first: DAD completes later
+			p.Actions = append(p.Actions, Action{At: 2 * nsSec, Kind: "addrs", If: iw.Name, Addrs: pickAddrs(rng, iw.LL, 3)})
+			n.Ifaces[0].Down = false
+		}
+	}
 	p.Horizon = 5 * nsSec
 	p.Stop = []string{"SIGTERM", "SIGHUP"}[rng.Intn(2)]
 	return p
@@ -153,6 +166,9 @@ func c03Oracle(info *runInfo, res *verifsim.Result) {
 		}
 		m := expectRA(*in)
 		if m.fail != "" {
+			if !strings.HasPrefix(m.fail, "model:") {
+				res.Violate("C03.meaning", "must-fail", "an RA was emitted (to %s at %s) in a state in which RA generation cannot produce a meaningful value: %s; wire options: %v", w.dst, ms(w.t), m.fail, wireOpts(w.ra))
+			}
 			continue
 		}
 		if len(m.unrep) > 0 {
